@@ -168,7 +168,7 @@ def blame (s : S) : Nat → Nat → List Nat → List Nat → List Nat × List N
 
 /-- `analyze_unsolvable`: the clause ids blamed for the conflict -/
 def analyzeUnsolvable (cid : Nat) : M (List Nat) := do
-  emit s!"unsolvable {cid}"
+  emit (.unsolvable cid)
   let s ← get
   let c0 := s.clauses.getD cid default
   let mut involved : List Nat := (clauseLits s c0).map (·.1)
@@ -241,7 +241,7 @@ def analyze (U : Universe) (level : Nat) (conflVar : Nat) (clauseId : Nat) (fuel
   let s ← get
   let lid := s.learntLits.size
   modify fun s => { s with learntLits := s.learntLits.push learnt }
-  emit (s!"learnt {lid} lits" ++ learnt.foldl (fun a l => a ++ " " ++ litStr l) "" ++ " why" ++ why.foldl (fun a c => a ++ s!" {c}") "")
+  emit (.learnt lid learnt why)
   modify fun s => { s with learntWhy := s.learntWhy.push why }
   let watch : Option (Lit × Lit) := match learnt with
     | [] => none
@@ -305,7 +305,7 @@ def processUnsolvable (root : SoR) (startLevel : Nat) (cid : Nat) : M SatResult 
     let c ← analyzeUnsolvable cid
     pure (.unsolvable c)
   else
-    emit (match root with | none => s!"softfail root {cid}" | some sv => s!"softfail {sv} {cid}")
+    emit (.softfail root cid)
     undoUntil startLevel
     let v ← internSoR root
     match ← tryAdd v false 0 (startLevel + 1) with
@@ -316,7 +316,7 @@ def processUnsolvable (root : SoR) (startLevel : Nat) (cid : Nat) : M SatResult 
 def runSat (U : Universe) (P : Problem) (root : SoR) (fuel : Nat) : M SatResult := do
   let s ← get
   let startLevel := match s.stack with | d :: _ => levelOf s d.var | [] => 0
-  emit (match root with | none => s!"runsat root {startLevel}" | some sv => s!"runsat {sv} {startLevel}")
+  emit (.runsat root startLevel)
   let rec loop : Nat → Nat → M SatResult
     | 0, _ => throw .outOfFuel
     | f + 1, level => do
@@ -368,7 +368,8 @@ deriving Repr, Inhabited
 def solve (U : Universe) (P : Problem) (fuel : Nat) : M Outcome := do
   modify fun s => { (default : S) with
     fetchedCands := s.fetchedCands, fetchedDeps := s.fetchedDeps, hinted := s.hinted, cachedSorted := s.cachedSorted,
-    log := s.log, polls := s.polls, cancelAt := s.cancelAt, cancelTransient := s.cancelTransient,
+    log := s.log, polls := s.polls, cancelAt := s.cancelAt, cancelAtCall := s.cancelAtCall, cancelTransient := s.cancelTransient,
+    callsStarted := s.callsStarted, raised := s.raised,
     activityAdd := s.activityAdd, activityDecay := s.activityDecay, trace := s.trace }
   let _ ← allocClause .root none
   match ← runSat U P none fuel with
